@@ -47,6 +47,8 @@ def make_branch(kind, cin, cout, i):
         return UserBlock(cin, cout, 'add') if i % 2 == 0 else nn.Conv2d(cin, cout, 1)
     if kind == 'identity':
         return nn.Identity() if i == 0 else nn.Conv2d(cin, cout, 1)
+    if kind == 'dw':
+        return nn.Conv2d(cin, cout, 1, groups=cin) if i % 2 == 0 else nn.Conv2d(cin, cout, 1)
     if kind == 'mix':
         opts = [lambda: nn.Conv2d(cin, cout, 3, padding=1), lambda: nn.Sequential(nn.Conv2d(cin, cout, 1), nn.ReLU()), lambda: nn.Conv2d(cin, cout, 1),
                 lambda: nn.Sequential(nn.Conv2d(cin, cout, 3, padding=1), nn.Conv2d(cout, cout, 1)), lambda: UserBlock(cin, cout, 'layer'),
@@ -58,7 +60,7 @@ def make_branch(kind, cin, cout, i):
 class S(nn.Module):
     """stem conv -> 1..3 choice blocks (each with n branches) -> flatten -> linear.  `twice`: the first block is invoked twice."""
 
-    def __init__(self, n=2, kind='conv', blocks=1, twice=False, C=2, HW=2, gumbel=False, hard=False):
+    def __init__(self, n=2, kind='conv', blocks=1, twice=False, C=2, HW=2, gumbel=False, hard=False, stem2=False):
         super().__init__()
         from plinio.methods.supernet import SuperNetModule
         self.stem = nn.Conv2d(1, C, 1)
@@ -66,15 +68,18 @@ class S(nn.Module):
         for b in range(blocks):
             self.blocks.append(SuperNetModule([make_branch(kind, C, C, i + b) for i in range(n)], gumbel_softmax=gumbel, hard_softmax=hard))
         self.twice = twice
+        self.stem2 = stem2      # the fixed stem is invoked a second time on a pooled (lower resolution) copy of the input
         self.fc = nn.Linear(C * HW * HW, 2)
 
     def forward(self, x):
+        aux = self.stem(F.avg_pool2d(x, 2)).flatten(1).sum(dim=1, keepdim=True) if self.stem2 else None
         x = torch.relu(self.stem(x))
         for i, b in enumerate(self.blocks):
             x = torch.relu(b(x))
             if i == 0 and self.twice:
                 x = torch.relu(b(x))
-        return self.fc(x.flatten(1))
+        y = self.fc(x.flatten(1))
+        return y + aux if aux is not None else y
 
 
 def prog_id(spec):
@@ -83,7 +88,7 @@ def prog_id(spec):
 
 def build(spec, seed=0):
     torch.manual_seed(seed)
-    kw = {k: v for k, v in spec.items() if k in ('n', 'kind', 'blocks', 'twice', 'C', 'HW', 'gumbel', 'hard')}
+    kw = {k: v for k, v in spec.items() if k in ('n', 'kind', 'blocks', 'twice', 'C', 'HW', 'gumbel', 'hard', 'stem2')}
     m = S(**kw)
     dyadic_init(m, seed)
     # the combiners' alpha are parameters too: restore the uniform initialisation
